@@ -160,30 +160,14 @@ func c11Enumerate(tier string, emit func(*eng.Case)) {
 	// the quick enumeration, a fixed stride per property) of the documents that the other checks
 	// explore is distilled warm and fresh as well, so that state surviving between calls shows on
 	// the input shapes those checks care about (URL forms, pagers, frames, hidden content, ...)
-	for _, ps := range []struct {
-		pid    string
-		stride int
-	}{{"C04", 700}, {"C06", 900}, {"C16", 1700}, {"C17", 80}, {"C19", 170}} {
-		other := eng.Registry[ps.pid]
-		if other == nil {
-			continue
-		}
-		stride := ps.stride
-		if thorough {
-			stride = stride/6 + 1
-		}
-		i := 0
-		pid := ps.pid
-		other.Enumerate("quick", func(c *eng.Case) {
-			if c.HTML == "" {
-				return
-			}
-			if i%stride == 0 {
-				emit(&eng.Case{Kind: "warm", HTML: c.HTML, URL: c.URL, Algo: c.Algo, Flags: c.Flags, Skip: c.Skip, P: map[string]string{"doc": "warm-vs-fresh " + pid + " case: " + ora.Trunc(c.Get("doc"), 200)}})
-			}
-			i++
-		})
+	every := 3
+	if thorough {
+		every = 2
 	}
+	crossEmit(tier, "warm", every, func(c *eng.Case) {
+		c.P["doc"] = "warm-vs-fresh " + c.P["doc"]
+		emit(c)
+	})
 	// (2) histories: every sequence of <= 3 calls from the menu
 	n := len(c11Menu())
 	hist := make([]int, n)
@@ -738,9 +722,10 @@ func init() {
 		ID:        "C11",
 		DesignRef: "§5 C11",
 		Rule: "(1) map orders: for each corpus document - pagers of 6 pages whose 5 links each follow one of 3 (quick) / 4 (thorough) URL patterns, current page 2|4 / 1..6, both algorithms; S1,S2 with <= 1 / <= 2 insertions over 22 atoms (embeds with several query parameters, multi-label blocks, schema.org item, pagers) x flags {none, all} x both algorithms - a DFS explores every execution with <= 1 non-default iteration order (<= 2 on the pager corpus in thorough) at the range-over-map sites (all permutations for <= 4 keys; descending, rotations, adjacent transpositions above); the canonical result (all fields but TimingInfo) must be identical. " +
-			"(1c) warm vs fresh: every document of both corpora is distilled in the long-lived worker process (after thousands of other calls) and in a fresh process, and the two results must be equal; the same for an evenly spaced subset (every k-th case of the quick enumeration, about 250 per property in quick and 1500 in thorough) of the cases of C04, C06, C16, C17 and C19. (2) histories: every sequence of <= 3 calls from a menu of 13 (document, options, entry point; two pages with the same short <title> and different h1, two pages using one inline style on block and inline elements in either order; including a page that starts with media, nil options and ApplyForURL(nil) through a stub transport), and every ordered pair from a 21-entry menu that distils two documents full of relative references (path-style and query-style pagers) under page URLs sharing hosts, directories and string prefixes, and every ordered pair (thorough: triple) from a 9-entry menu of pages whose OpenGraph/schema.org/IE metadata take different parser paths, runs in a fresh process; additionally, for every ordered pair of 5 page URLs and both algorithms, one URL object is used, overwritten in place by the caller and used again, and the second result must equal that of a freshly parsed equal URL; each call must equal the same call alone in a fresh process; package-variable writes after init are reported. (3) entry points: ApplyForReader is repeatable (three calls on the same bytes), ApplyForFile == ApplyForReader, and - for valid UTF-8 input, where the reference parse is itself well defined - ApplyForReader == Apply(dom.Parse), on all byte-token strings of <= 2 / <= 3 tokens and the corpus. " +
+			"(1c) warm vs fresh: every document of both corpora is distilled in the long-lived worker process (after thousands of other calls) and in a fresh process, and the two results must be equal; the same for the cross corpus (every third - thorough: second - document of an evenly spaced subset, every 2^k-th case of the quick enumeration, of the documents of C03, C04, C06, C07, C08, C14, C15, C16, C17, C18, C19 and C20). (2) histories: every sequence of <= 3 calls from a menu of 13 (document, options, entry point; two pages with the same short <title> and different h1, two pages using one inline style on block and inline elements in either order; including a page that starts with media, nil options and ApplyForURL(nil) through a stub transport), and every ordered pair from a 21-entry menu that distils two documents full of relative references (path-style and query-style pagers) under page URLs sharing hosts, directories and string prefixes, and every ordered pair (thorough: triple) from a 9-entry menu of pages whose OpenGraph/schema.org/IE metadata take different parser paths, runs in a fresh process; additionally, for every ordered pair of 5 page URLs and both algorithms, one URL object is used, overwritten in place by the caller and used again, and the second result must equal that of a freshly parsed equal URL; each call must equal the same call alone in a fresh process; package-variable writes after init are reported. (3) entry points: ApplyForReader is repeatable (three calls on the same bytes), ApplyForFile == ApplyForReader, and - for valid UTF-8 input, where the reference parse is itself well defined - ApplyForReader == Apply(dom.Parse), on all byte-token strings of <= 2 / <= 3 tokens and the corpus. " +
 			"Non-trivial = an execution met a ranged map with >= 2 keys and a non-default order was explored; histories of >= 2 calls; inputs that parse.",
 		Enumerate:                 c11Enumerate,
+		Prepare:                   func(tier string) { CrossCorpus(tier) },
 		Check:                     c11Check,
 		NondeterminismIsViolation: true,
 		Bounds: func(tier string) map[string]any {
